@@ -49,7 +49,8 @@ def exact_unit(ctx, src):
                           Rule('return data;', 'return;', count=1)], ret_zero='')
     # whole files: the local scoped_fd becomes a plain descriptor obtained from the open stub (its destructor call at scope
     # exit is dropped: "closed exactly once" is the subject of the scoped_fd groups)
-    OPEN = Rule(r'scoped_fd fd\(filename, ([^;]+)\);', r'int fd = c14_open(filename, \1); if (verif_exc) return;', count=1, regex=True)
+    # (an explicit permission argument is dropped: the mode bits of a created file are not part of the statement)
+    OPEN = Rule(r'scoped_fd fd\(filename, ([^;,]+)(?:,[^;,]+)?\);', r'int fd = c14_open(filename, \1); if (verif_exc) return;', count=1, regex=True)
     u.raw('#include <fcntl.h>\n#include <errno.h>\n')
     u.function(src, CC, r'string load_file\(const string& filename\)', new_header='void phosg_load_file(vstr* data, const vstr* filename)',
                rules=[OPEN, Rule('fstat(fd).st_size', 'c14_fstat_size(fd)', count=1),
@@ -61,6 +62,31 @@ def exact_unit(ctx, src):
     u.function(src, CC, r'void save_file\(const string& filename, const string& data\)',
                new_header='void phosg_save_file_str(const vstr* filename, const vstr* data)',
                rules=[Rule('save_file(filename, data.data(), data.size());', 'phosg_save_file(filename, data->data, data->size);', count=1)])
+    return u
+
+
+def dir_unit(ctx, src):
+    """list_directory / list_directory_sorted: the readdir loop, with any file-local helper it calls (Unit.helpers)."""
+    u = Unit(ctx, 'dir')
+    u.raw('#include <stdbool.h>\n#include <string.h>\n')
+    common = [Rule(r'\bopendir\(dirname\.c_str\(\)\)', 'c14_opendir(dirname)', count=1, regex=True),
+              Rule(r'\bDIR\*', 'C14_DIR*', count='+', regex=True),
+              Rule(r'\bstruct dirent\*', 'struct c14_dirent*', count='+', regex=True),
+              Rule(r'(?<![\w.>])(?:::)?\b(readdir|closedir|strcmp)\(', r'c14_\1(', count='+', regex=True),
+              Rule(r'\bfiles\.(?:emplace|emplace_back|insert|push_back)\(', 'c14_names_store(files, ', count='+', regex=True),
+              Rule(r'\breturn files;', 'return;', count=1, regex=True)]
+    bodies = []
+    for nm, decl, extra in (('list_directory', r'unordered_set<string> files;', []),
+                            ('list_directory_sorted', r'vector<string> files;',
+                             [Rule(r'\bsort\(files\.begin\(\), files\.end\(\)\);', 'c14_names_sort(files);', count=1, regex=True)])):
+        t = u.function(src, CC, r'(?:unordered_set|vector)<string> %s\(const string& dirname\)' % nm,
+                       new_header='void phosg_%s(c14_names* files, const vstr* dirname)' % nm,
+                       rules=[Rule(decl, '', count=1)] + common + extra, ret_zero='', loops={1: 'C14_DIR_LOOP'}, nloops=1, emit=False)
+        bodies.append(t)
+    # file-local helpers the loops call (e.g. a predicate factored out of the "." / ".." test) are part of the verified text
+    u.helpers(src, CC, '\n'.join(bodies), known=('c14_opendir', 'c14_readdir', 'c14_closedir', 'c14_strcmp', 'c14_names_store', 'c14_names_sort'))
+    for t in bodies:
+        u.parts.append(t)
     return u
 
 
@@ -250,9 +276,9 @@ def plan(ctx):
     E('fgetcx', 'fgetcx(FILE*)', ['c14_fgetc', 'c14_feof'])
     E('read_str', 'read(int, size_t)', ['c14_read', 'vstr_resize'])
     E('fread_str', 'fread(FILE*, size_t)', ['c14_fread', 'vstr_resize'])
-    E('load_file', 'load_file', ['c14_open', 'c14_fstat_size', 'c14_read', 'vstr_resize'])
-    E('save_file', 'save_file(const string&, const void*, size_t)', ['c14_open', 'c14_write'])
-    E('save_file_str', 'save_file(const string&, const string&)', ['phosg_save_file'])
+    E('load_file', 'load_file', ['c14_open', 'c14_fstat_size', 'c14_read', 'vstr_resize'], mode='file_replace')
+    E('save_file', 'save_file(const string&, const void*, size_t)', ['c14_open', 'c14_write'], mode='file_replace')
+    E('save_file_str', 'save_file(const string&, const string&)', ['phosg_save_file'], mode='file_replace')
     ul = loops_unit(ctx, src)
     ul.write()
     ctx.functions_under_contract += ul.functions
@@ -269,6 +295,15 @@ def plan(ctx):
                         replace=['c14_fgets', 'c14_feof', 'c14_strlen', 'vsv_concat_out'], loops=True, kind='loop-contract', timeout=300, fallback_unwind=5,
                         clause_note='the result is the whole ghost line (g_src_len bytes, with its newline if it has one), whatever its length relative to the 256-byte block',
                         replay=Replay(driver='C14/fs.cc', mode='fgets_line', sources=ALL_LIB, small_define='VERIF_SMALL_LINE')))
+    ud = dir_unit(ctx, src)
+    ud.write()
+    ctx.functions_under_contract += ud.functions
+    for fn in ('list_directory', 'list_directory_sorted'):
+        groups.append(Group(name='Filesystem.' + fn, harness='harness/C14/dir.c', entry='h_' + fn, function=fn, enforce='phosg_' + fn, loops=True,
+                            kind='loop-contract', timeout=300,
+                            clause_note='contracts/C14_dir.h: the (arbitrary) watched entry of a directory of any size is stored exactly once unless its name is '
+                                        'exactly "." or ".."; nothing else is stored; every entry is consumed; closedir exactly once; cannot_open_file iff opendir fails',
+                            replay=Replay(driver='C14/fs.cc', mode='list_directory', extra=[fn], sources=ALL_LIB)))
     uf = fd_unit(ctx, src)
     uf.write()
     ctx.functions_under_contract += uf.functions
@@ -325,7 +360,7 @@ EXPLANATION = ('The read helpers of src/Filesystem.cc are put under function con
                'read(2) may return ANY count in [1, min(n, remaining)] (0 only at end-of-file, -1 on error), so one proof covers every '
                'chunking: pipes with delayed writers, short reads, sockets. read_all(int) / read_all(FILE*) / fgets(FILE*) are loops with '
                'loop contracts over a model of the block container (stubs/C14_vsv.h); the exact-size family, the single-call readers, '
-               'load_file / save_file, scoped_fd, basename / dirname and Poll are loop-free and discharged over their whole input domain; '
+               'load_file / save_file (including the open(2) flags recorded in a ghost), scoped_fd, basename / dirname and Poll are loop-free and discharged over their whole input domain; '
                '"closed exactly once" and dirname + "/" + basename == p are lemmas over the contracts. Poll::add / remove are proved for '
                'vectors of ANY length, described around the key (lower-bound position, present flag; stubs/C14_pvec.h).')
 TRUSTED = [
@@ -336,6 +371,8 @@ TRUSTED = [
     'stubs/C14_pvec.h: std::vector<struct pollfd> with iterators as indices; std::lower_bound / std::upper_bound on a strictly sorted vector described around the key',
     'stubs/C14_str.h: std::string::rfind(char) answered from the ghost description of the path (g_ls = position of the last slash), substr per [string.substr]',
     'stubs/vstr.h (std::string model), contracts/C14_*.h (the specification clauses, written from the property statement)',
+    'stubs/C14_dir.h: opendir / readdir / closedir over a ghost directory of any size whose entry names are arbitrary NUL-terminated strings (POSIX: one statically '
+    'allocated dirent, overwritten per call); strcmp against a literal of at most two characters; the result container as a counting stub',
 ]
 ASSUMPTIONS = [
     'ASSUMED syscall / stdio contracts (stubs/C14_io.h): read() returns -1, or 0 only at end-of-file, or any k in [1, min(n, remaining)] and stores the next k stream bytes; '
@@ -356,11 +393,14 @@ DROPS = ('std::string results -> vstr out-parameters; FILE -> opaque C14_FILE; i
          'Poll iterators -> indices, the comparison lambdas extracted as functions of their own; struct pollfd -> c14_pollfd')
 NOT_DECIDED = [
     'load_file(save_file(d)) = d through a real file system: that the bytes a later read() delivers are the bytes an earlier write() accepted is a property of the kernel, '
-    'not of phosg; only the two halves are proved (save_file hands exactly d to write() or throws; load_file returns exactly the fstat-size bytes read() delivered or throws)',
+    'not of phosg; proved are the two halves (save_file hands exactly d to write() or throws; load_file returns exactly the fstat-size bytes read() delivered or throws) '
+    'and the open(2) protocol that makes them compose under POSIX: save_file opens for writing with O_CREAT and O_TRUNC and without O_APPEND (so a longer previous '
+    'content cannot survive), load_file opens without O_TRUNC / O_APPEND / write-only access',
     'real pipes with staggered writers, link-time interposition of read(): covered only through the ASSUMED read(2) contract (any short-read plan), not observed on a kernel '
     '(the native replay drivers do use a real pipe / fopencookie / tmpfile, but only for counterexamples)',
-    'list_directory / list_directory_sorted return exactly the entry names present: restates opendir/readdir',
-    'recursive unlink removes the whole tree: restates rmdir/unlink/readdir; recursion over an unbounded directory tree',
+    'recursive unlink removes the whole tree: restates rmdir/unlink/readdir; recursion over an unbounded directory tree (its enumeration step, list_directory, is under contract)',
+    'list_directory: that two entries have different names / the set semantics of unordered_set and the order produced by std::sort are the library containers (the result '
+    'container is a counting stub); decided: every readdir entry other than "." / ".." is stored exactly once, nothing else is stored, closedir exactly once',
     'Poll::poll (the revents map) and the exhaustive add/remove histories over 3 descriptors: single operations are proved for any vector instead; '
     'that strict sortedness of the WHOLE vector is preserved is only shown around the key plus "all other entries kept in order"',
     'scoped_fd(const char*, int, mode_t) / open(): wrap open(2)',
@@ -370,13 +410,15 @@ CLAIMED = True
 MANIFEST = dict(
     category='proof',
     text=('read_all(int), read_all(FILE*), fgets(FILE*) (loop contracts), readx/preadx/freadx/writex/pwritex/fwritex in both overloads, fgetcx, read(int,size_t), '
-          'fread(FILE*,size_t), load_file, save_file, every member of scoped_fd, basename, dirname, Poll::add/remove/empty are extracted from src/Filesystem.cc on every run and '
+          'fread(FILE*,size_t), load_file, save_file, list_directory, list_directory_sorted, every member of scoped_fd, basename, dirname, Poll::add/remove/empty are extracted from src/Filesystem.cc on every run and '
           'proved against contracts taken from the statement: the result is exactly the bytes of a ghost source stream up to end-of-file / exactly n bytes / exactly the line, '
           'or an exception -- for EVERY way read() may chunk the data (any short-read plan, unbounded stream length). Descriptors are closed exactly once (ghost close '
-          'counters, lifetime lemmas), dirname(p)+"/"+basename(p)=p is a lemma over the two contracts, Poll behaves as a map at the key for vectors of any length.'),
+          'counters, lifetime lemmas), dirname(p)+"/"+basename(p)=p is a lemma over the two contracts, Poll behaves as a map at the key for vectors of any length. '
+          'The directory listers store every readdir entry except exactly "." and ".." once, for a directory of any size and any names (loop contract, file-local helpers '
+          'extracted with the loop); save_file / load_file pass open(2) the flags under which POSIX makes load_file(save_file(d)) == d (O_TRUNC etc.).'),
     note=('Everything rests on ASSUMED contracts for the system calls and stdio functions (stubs/C14_io.h, written from POSIX / ISO C) and on models of the block container, '
           'the pollfd vector and std::string (stubs/C14_vsv.h, C14_pvec.h, C14_str.h, vstr.h). Not decided: anything that only restates the kernel -- real pipes, '
-          'list_directory, recursive unlink, load_file(save_file(d)) through a real file system -- and Poll::poll. Lines with NUL bytes are outside the fgets claim.'),
+          'recursive unlink, the kernel side of load_file(save_file(d)) -- and Poll::poll. Lines with NUL bytes are outside the fgets claim.'),
     technique=('function contracts + loop contracts (requires/ensures/assigns, loop_invariant/decreases) enforced with goto-instrument --dfcc, callees and libc/syscalls replaced by '
                'contract-only stubs over a ghost stream, discharged by cbmc (SAT/SMT portfolio); lemmas over the contracts'),
 )
